@@ -4,6 +4,16 @@ R_AXIOMS = ("theorems over R use the standard-library real-number axioms Classic
             "sig_not_dec and FunctionalExtensionality.functional_extensionality_dep (named by Print Assumptions in the evidence)")
 
 CHECKS = {
+ "C08": {
+  "technique": "Coq proof (invariant over the refill loop, any set order and any draws) + exhaustive correspondence",
+  "text": "Model/Repop.v renders repopulate_empty_clusters with the set-iteration order of the recipients and the random.sample draws as inputs, incl. the suspicious pop() branch. Proved for all K, m >= 1, labellings, spreads, orders and valid draws: C08_error_iff (error <=> recipients exceed the donors' capacity sum(floor(size/m)-1)), C08_ok (conservation, who may lose/gain, exactly m per refill, donors keep >= m, others untouched), C08_donor_order (max spread among clusters still >= 2m), C08_dead_branch (the pop() branch is unreachable), C08_iterated. Tied to the code by comparing complete output labellings / errors on every size vector of the exhaustive sub-domain plus random K <= 12, with recorded draws and the interpreter's own set order; a monitor re-checks the property bullets and that the input state is untouched.",
+  "note": "Closed under the global context. Trusted: harness recording of random.sample and of the set iteration order; spreads enter the model as ranks of the float norms (order-preserving).",
+ },
+ "C11": {
+  "technique": "Coq proof (unbounded index arithmetic, partition by NoDup+membership) + exhaustive correspondence",
+  "text": "For every n, N, W: closed-form index = row-major rank and a bijection onto [0,n(n+1)/2) (C11_index_is_rank, C11_index_bijection), size inverse, compress/reinflate mutual inverses for every carrier satisfying x+0-0=x, (x+x)-x=x (instantiated at R), class lists partition the upper triangle (C11_partition: Permutation + NoDup), class size W-b, same class <=> Toeplitz-equal (C11_class_toeplitz), both forms name the same positions. The property's whole finite domain (n <= 150; N <= 10, W <= 14) is enumerated against the implementation with cold and warm functools caches, the class enumeration order being recorded from admm_update_z itself.",
+  "note": "Closed under the global context except C11_roundtrip_R (real-number axioms). The correspondence evaluates proved-equal binary-arithmetic forms (Proofs/TriIndexFast.v) of the nat definitions; the model's reinflate is compared up to n = 48 (64 thorough) and at n = 100 (150), all n are covered by the implementation-level monitor. binary64: (d+d)-d = d needs |d| < 2^1023 and -0 becomes +0; checked on awkward values by the monitor, not proved.",
+ },
  "C01": {
   "technique": "Coq proof over R (induction on the backward pass) + bit-exact binary64 correspondence",
   "text": "The labelling kernel is modelled once, generically in the carrier (Model/Viterbi.v). At R: C01_optimal (reported cost <= cost of every one of the K^T label sequences, any T, K <= 65536, any beta >= 0 per pair), C01_cost_is_path_cost, C01_cost_definition, C01_scalar; C01_shape holds for every carrier incl. binary64 with NaN. The same model text at binary64 (primitive floats, vm_compute) is compared bit for bit with the kernel in three execution modes (JIT, JIT disabled, Numba absent) on generated tables; an exact-rational DP / brute force monitor checks the implementation's answers independently.",
